@@ -238,3 +238,15 @@
         assert!(env.get_template("leaf").unwrap().render(()).unwrap() == "R[leaf]");
         });
     }
+
+    // listed known finding: a from-import of a name the module does not define falls through to the importer's scope
+//# ob name=from_import_falls_through_native role=native_bounded fn=compiler::codegen::compile_stmt(FromImport) kind=bounded bound="1 template: {% from 'm' import x %} where m does not define x and the render context does" stmt="an import exposes exactly the imported template's top-level macros and variables: a name the module does not define is undefined, whatever the importer's context holds"
+    fn from_import_falls_through_native() {
+        use crate::Environment;
+        let mut env = Environment::new();
+        env.add_template("m", "{% set y = 1 %}").unwrap();
+        env.add_template("main", "{% from 'm' import x %}[{{ x }}]").unwrap();
+        let got = env.get_template("main").unwrap().render(crate::context! { x => "CTX" }).unwrap();
+        assert!(got == "[]", "from-import of a name the module does not define rendered {got:?}: the importer's variable leaked through");
+    }
+
